@@ -205,5 +205,19 @@ CLAIMS["C16"] = {
     "technique": "effect inventory with provenance classes + escape analysis of to_dict + reset-before-use analysis of generator fields",
     "ref": "DESIGN.md section 5 C16",
 }
+CLAIMS["C12"] = {
+    "text": "Decides the structural invariants of the inventory for all packages: to_dict has schemaVersion 1 and eight lists, each "
+            "the to_dict of one store sorted by id; each add_* stores the element under its own id (so lists are duplicate free); "
+            "the file is json.dump(to_dict()); every leave handler adds an element to its store and to exactly one owner for every "
+            "parent kind the walker can produce, functions bring their results and parameters (referential integrity; known "
+            "finding: enums nested in classes); every id= at the 13 element constructors is _create_id_from_stack(name) or "
+            "'<owner id>/<name>' with the element's own name; owners reference children by id; static/class-method/property "
+            "flags come from the node being built and superclasses are appended per base in order; 'attribute already defined' "
+            "depends on the owning class only; root detection keeps all packages of minimal depth. Completeness beyond the "
+            "walker's coverage (C03) and alias resolution of superclass names are not decided.",
+    "note": TRUST,
+    "technique": "abstract values of the serialisers + stack-shape pairing analysis + provenance of id=/flags",
+    "ref": "DESIGN.md section 5 C12",
+}
 
 NOT_APPLICABLE = {}
